@@ -28,7 +28,7 @@ ASSUMPTIONS = ["public parameters are the constructor arguments exposed as attri
 LAYOUTS = ["C", "F", "strided", "readonly", "T-of-T"]
 ATTRS_PL = ["temperature", "alpha", "zeta", "cutoff", "cutoff_type"]
 ATTRS_CU = ["temperature", "cutoff", "cutoff_type", "j_function"]
-VALUES = {"temperature": [0.0, 0.5, 2.0], "alpha": [0.05, 0.2, 0.4], "zeta": [1.0, 2.0, 3.0], "cutoff": [1.0, 3.0, 5.0],
+VALUES = {"temperature": [0.0, 0.02, 0.5, 2.0], "alpha": [0.05, 0.2, 0.4], "zeta": [1.0, 2.0, 3.0], "cutoff": [1.0, 3.0, 5.0],
           "cutoff_type": ["hard", "exponential", "gaussian"], "j_function": [0, 1, 2]}
 JFUNS = [lambda w: 0.2 * w, lambda w: 0.1 * w ** 2, lambda w: 0.3 * w / (1.0 + w * w)]
 
@@ -63,7 +63,7 @@ def s_case(draw, tier):
         c = draw(st.integers(0, 1))
         if kind == "set":
             attr = draw(st.sampled_from(ATTRS_PL if c == 0 else ATTRS_CU))
-            ops.append({"op": "set", "c": c, "attr": attr, "v": draw(st.integers(0, 2))})
+            ops.append({"op": "set", "c": c, "attr": attr, "v": draw(st.integers(0, 3 if attr == "temperature" else 2))})
         elif kind == "eval":
             ops.append({"op": "eval", "c": c, "what": draw(st.sampled_from(["correlation", "spectral_density", "eta", "2d-triangle", "2d-square", "2d-rect"])),
                         "x": draw(st.sampled_from([0.1, 0.3, 0.7]))})
@@ -76,7 +76,9 @@ def s_case(draw, tier):
             ops.append({"op": "compute", "c": c, "b": draw(st.integers(0, 3)), "use_bath": draw(st.booleans()),
                         "kind": draw(st.sampled_from(["tempo", "pt-tempo+dynamics", "gibbs", "gradient", "correlations", "pt-tebd"])),
                         "layout": draw(st.sampled_from(LAYOUTS))})
-    return {"ops": ops, "rho0": draw(gens.dm_spec(2)), "H": draw(gens.herm_spec(2, 1, 2))}
+    return {"ops": ops, "rho0": draw(gens.dm_spec(2)), "H": draw(gens.herm_spec(2, 1, 2)),
+            "T0": [draw(st.sampled_from([0.0, 0.02, 0.5])), draw(st.sampled_from([0.02, 0.5]))],
+            "wc0": draw(st.sampled_from([3.0, 5.0]))}
 
 
 def _fresh(params):
@@ -144,8 +146,10 @@ def run_case(case):
     import oqupy
     out = Outcome()
     params = [
-        {"type": "pl", "alpha": 0.2, "zeta": 1.0, "cutoff": 3.0, "cutoff_type": "exponential", "temperature": 0.5},
-        {"type": "cu", "j_function": 0, "cutoff": 3.0, "cutoff_type": "gaussian", "temperature": 0.5},
+        {"type": "pl", "alpha": 0.2, "zeta": 1.0, "cutoff": case.get("wc0", 3.0), "cutoff_type": "exponential",
+         "temperature": case.get("T0", [0.5, 0.5])[0]},
+        {"type": "cu", "j_function": 0, "cutoff": case.get("wc0", 3.0), "cutoff_type": "gaussian",
+         "temperature": case.get("T0", [0.5, 0.5])[1]},
     ]
     corrs = [_fresh(p) for p in params]
     baths = []          # (bath object, snapshot of params, coupling operator)
